@@ -53,6 +53,10 @@ def plan(tier, seed):
     for n in (3, 4) + ((5,) if tier == "thorough" else ()):
         for a, b in E.chunks(4 ** n, 16):
             shards.append(("nat", n, a, b))
+    # unevenly spaced points (arc lengths 0.5, 0.75, 1.5, ...: 1/d differs from d), unsupervised only
+    for n in (4, 5):
+        for a, b in E.chunks(4 ** n, 64):
+            shards.append(("nat", n, a, b, "uneven"))
     # twelve candidates (two-digit k) on a fourteen-sample set: the top accuracy at every single k
     # and at every pair of k (ties between one- and two-digit candidates)
     for part in range(4):
@@ -385,8 +389,11 @@ def _programs(shard, seed):
             yield {"model": "UnsupervisedOPF", "mode": "features", "X": X, "metric": "euclidean",
                    "labels": T["labels"], "min_k": mn, "max_k": mx, "script": list(script)}
     else:
-        _, n, a, b = shard
+        _, n, a, b = shard[:4]
+        uneven = len(shard) > 4
         pts = E.lattice("1d", seed)
+        if uneven:
+            pts = [(v * sc,) for v in (0.0, 0.5, 2.0, 2.75)]
         for si in range(a, b):
             seq = E.sequence_at(len(pts), n, si)
             X = [list(pts[i]) for i in seq]
@@ -394,6 +401,8 @@ def _programs(shard, seed):
                 for mn in range(1, mx + 1):
                     yield {"model": "UnsupervisedOPF", "mode": "features", "X": X, "metric": "euclidean",
                            "labels": [i % 2 for i in range(n)], "min_k": mn, "max_k": mx, "script": None}
+                if uneven:
+                    continue
                 for lab in E.labelings(n, max_classes=2):
                     lab = list(lab)
                     vals = [{"X": X, "labels": lab},
